@@ -20,6 +20,7 @@ import (
 	"fmt"
 	"os"
 	"path/filepath"
+	"regexp"
 	"runtime"
 	"sort"
 	"strings"
@@ -433,8 +434,11 @@ func (x *c1runner) check(p c1prog, r *Rng) int {
 			continue
 		}
 		fails++
-		cls := x.class(p, texts, base.canon, res.canon, applied)
 		diffs := c1Diffs(base.info.paths, res.info.paths)
+		cls := x.class(p, texts, base.canon, res.canon, applied)
+		if cls == "" {
+			cls = c1classByDiff(p, base, res, diffs)
+		}
 		c.Direct(false, cls, "canon(eval P) != canon(eval P'): "+c1diffString(diffs),
 			map[string]any{"name": p.name, "stream": p.stream, "p": p.src, "p_rearranged": texts, "applied": c1appliedString(applied),
 				"canon_p": c1clip(base.canon), "canon_p_rearranged": c1clip(res.canon)})
@@ -478,6 +482,194 @@ func (x *c1runner) class(p c1prog, texts []string, canonP, canonQ string, applie
 		}
 	}
 	return ""
+}
+
+var c1probeRe = regexp.MustCompile(`A[01]{2}`)
+var c1flagRe = regexp.MustCompile(`<[RCE]+>`)
+
+// c1classByDiff: classes decided by WHERE and HOW the two value trees differ. Every differing
+// path must be explained by a known class, otherwise the pair stays unclassified.
+func c1classByDiff(p c1prog, base, res c1res, diffs []c1diff) string {
+	if len(diffs) == 0 {
+		return ""
+	}
+	hasRef := strings.Contains(p.src, ".") || strings.Contains(p.src, "[")
+	bothErr := base.info.nErr > 0 && res.info.nErr > 0
+	embRef := c1hasEmbeddedRef(p.src)
+	selfRef := c1selfRef(p.src)
+	nMarks := c1countMarks(p.src)
+	compr := strings.Contains(p.src, "if ") || strings.Contains(p.src, "for ")
+	found := map[string]bool{}
+	for _, d := range diffs {
+		sa, sb := c1probeRe.ReplaceAllString(d.a, ""), c1probeRe.ReplaceAllString(d.b, "")
+		switch {
+		case d.kind == "value" && sa == sb:
+			// only the Allows probes differ: they answer "true" for a node with an
+			// erroneous child; explained by the child's entry
+			found["derived"] = true
+		case compr && (strings.HasPrefix(sa, "{}") && sb == "T(_)" || strings.HasPrefix(sb, "{}") && sa == "T(_)" ||
+			sa == "T(_)+"+sb || sb == "T(_)+"+sa):
+			found["top-unified-with-struct-holding-failing-comprehension"] = true
+		case d.kind == "err-class" && hasRef:
+			found["missing-field-reference-fatal-vs-incomplete"] = true
+		case (d.kind == "err-vs-value" || d.kind == "absent") && embRef:
+			found["closedness-of-embedded-reference-depends-on-arrangement"] = true
+		case d.kind == "value" && embRef && c1flagRe.ReplaceAllString(sa, "") == c1flagRe.ReplaceAllString(sb, ""):
+			// only the closed flags of the vertex differ
+			found["closedness-of-embedded-reference-depends-on-arrangement"] = true
+		case d.kind == "value" && embRef && (strings.HasPrefix(sa, "|(") || strings.HasPrefix(sb, "|(")):
+			// a disjunct that closedness should eliminate survives in one arrangement
+			found["closedness-of-embedded-reference-depends-on-arrangement"] = true
+		case selfRef && (strings.HasPrefix(sa, "|(") || strings.HasPrefix(sb, "|(") || d.kind != "value"):
+			found["self-reference-inside-disjunction-or-comprehension"] = true
+		case p.stream == "corpus" && strings.Contains(p.name, "/cycle/") && d.kind != "value":
+			found["cyclic-mutual-constraint-error-placement"] = true
+		case nMarks >= 2 && (strings.Contains(sa, ";*") || strings.Contains(sb, ";*") || d.kind != "value"):
+			found["default-order-several-marked-disjunctions"] = true
+		case (d.kind == "err-vs-value" || d.kind == "absent") && bothErr:
+			found["error-placement-through-reference"] = true
+		default:
+			return ""
+		}
+	}
+	for _, c := range []string{"closedness-of-embedded-reference-depends-on-arrangement",
+		"self-reference-inside-disjunction-or-comprehension", "cyclic-mutual-constraint-error-placement",
+		"default-order-several-marked-disjunctions",
+		"top-unified-with-struct-holding-failing-comprehension",
+		"missing-field-reference-fatal-vs-incomplete", "error-placement-through-reference"} {
+		if found[c] {
+			return c
+		}
+	}
+	return ""
+}
+
+// c1selfRef: a field whose value mentions the field's own name inside a disjunction, or a
+// comprehension whose condition/source mentions a field that its body declares.
+func c1selfRef(src string) bool {
+	f, err := c1parse(src)
+	if err != nil {
+		return false
+	}
+	found := false
+	mentions := func(n ast.Node, name string, needDisj bool) bool {
+		hit := false
+		var walk func(n ast.Node, inDisj bool)
+		walk = func(n ast.Node, inDisj bool) {
+			ast.Walk(n, func(m ast.Node) bool {
+				switch x := m.(type) {
+				case *ast.BinaryExpr:
+					if x.Op == token.OR && !inDisj {
+						walk(x.X, true)
+						walk(x.Y, true)
+						return false
+					}
+				case *ast.Ident:
+					if x.Name == name && (inDisj || !needDisj) {
+						hit = true
+					}
+				}
+				return !hit
+			}, nil)
+		}
+		walk(n, false)
+		return hit
+	}
+	ast.Walk(f, func(n ast.Node) bool {
+		switch x := n.(type) {
+		case *ast.Field:
+			if id, ok := x.Label.(*ast.Ident); ok && mentions(x.Value, id.Name, true) {
+				found = true
+			}
+		case *ast.Comprehension:
+			if s, ok := x.Value.(*ast.StructLit); ok {
+				for _, d := range s.Elts {
+					if fd, ok := d.(*ast.Field); ok {
+						if id, ok := fd.Label.(*ast.Ident); ok {
+							for _, cl := range x.Clauses {
+								if mentions(cl, id.Name, false) {
+									found = true
+								}
+							}
+						}
+					}
+				}
+			}
+		}
+		return !found
+	}, nil)
+	return found
+}
+
+// c1hasEmbeddedRef: some embedding (possibly through & and parentheses, or inside a
+// comprehension body) is a reference or a close() call, i.e. may bring a CLOSED value in.
+func c1hasEmbeddedRef(src string) bool {
+	f, err := c1parse(src)
+	if err != nil {
+		return false
+	}
+	found := false
+	var operand func(e ast.Expr)
+	operand = func(e ast.Expr) {
+		switch x := e.(type) {
+		case *ast.Ident:
+			if !c1predecl[x.Name] {
+				found = true
+			}
+		case *ast.SelectorExpr, *ast.IndexExpr:
+			found = true
+		case *ast.CallExpr:
+			found = true
+		case *ast.ParenExpr:
+			operand(x.X)
+		case *ast.BinaryExpr:
+			if x.Op == token.AND {
+				operand(x.X)
+				operand(x.Y)
+			}
+		}
+	}
+	ast.Walk(f, func(n ast.Node) bool {
+		if x, ok := n.(*ast.EmbedDecl); ok {
+			operand(x.Expr)
+		}
+		return !found
+	}, nil)
+	return found
+}
+
+// a struct literal (or the file) all of whose declarations are comprehensions (or that is
+// empty inside a comprehension).
+func c1hasComprehensionOnlyStruct(src string) bool {
+	f, err := c1parse(src)
+	if err != nil {
+		return false
+	}
+	only := func(ds []ast.Decl) bool {
+		if len(ds) == 0 {
+			return false
+		}
+		for _, d := range ds {
+			switch d := d.(type) {
+			case *ast.Comprehension:
+			case *ast.EmbedDecl:
+				if _, ok := d.Expr.(*ast.Comprehension); !ok {
+					return false
+				}
+			default:
+				return false
+			}
+		}
+		return true
+	}
+	found := only(f.Decls)
+	ast.Walk(f, func(n ast.Node) bool {
+		if s, ok := n.(*ast.StructLit); ok && only(s.Elts) {
+			found = true
+		}
+		return !found
+	}, nil)
+	return found
 }
 
 // a list literal with a `for` comprehension whose source is not a list literal, or a call
@@ -585,7 +777,7 @@ func runC01(c *Cfg) {
 	}
 	gr := r.Sub()
 	for i := 0; i < nGen; i++ {
-		g := &c1gen{r: gr.Sub(), counts: map[string]int{}, maxDepth: 2 + i%3}
+		g := &c1gen{r: gr.Sub(), counts: map[string]int{}, maxDepth: 2 + i%2}
 		src := g.Program()
 		for k, n := range g.counts {
 			for j := 0; j < n; j++ {
@@ -640,12 +832,19 @@ func c1Replay(c *Cfg) {
 	if i := strings.Index(name, ":"); i >= 0 {
 		mode, name = name[:i], name[i+1:]
 	}
+	if mode == "gen" {
+		c1DumpGen(c.Seed, 12, false)
+		return
+	}
 	b, err := os.ReadFile(name)
 	if err != nil {
 		fmt.Println(err)
 		return
 	}
 	switch mode {
+	case "gen":
+		c1DumpGen(c.Seed, 12, false)
+		return
 	case "min":
 		c1Minimise(string(b), NewRng(c.Seed))
 		return
